@@ -195,6 +195,22 @@ fn propdefs(g: &mut G) -> LefLibrary {
     let (v2, r2) = tail(g, "3", "-4", "9", "propdefs.iv", "propdefs.ib", "propdefs.ie", "propdefs.ikind");
     defs.push(LefPropertyDefinition::LefInteger(o2, "pi".into(), v2, r2));
     defs.push(LefPropertyDefinition::LefString(O::Layer, "pn".into(), None));
+    // definitions sharing a name: under different object types, or even under the same one (they stay separate entries)
+    match g.c.cost(3, "propdefs.shared-name") {
+        0 => {}
+        k => {
+            for d in defs.iter_mut() {
+                match d {
+                    LefPropertyDefinition::LefString(o, n, _) | LefPropertyDefinition::LefReal(o, n, _, _) | LefPropertyDefinition::LefInteger(o, n, _, _) => {
+                        *n = "weight".into();
+                        if k == 2 {
+                            *o = O::Macro;
+                        }
+                    }
+                }
+            }
+        }
+    }
     let n = g.of(&[4usize, 1, 2, 3], "propdefs.count");
     defs.truncate(n);
     lib.property_definitions = defs;
@@ -594,7 +610,8 @@ fn ports(g: &mut G) -> LefLibrary {
 }
 
 fn geoms(g: &mut G) -> LefLibrary {
-    let mut lib = lib_v(Some("5.8"));
+    // the geometries (masks included) under the current version, without a VERSION statement, and under older versions
+    let mut lib = lib_v([Some("5.8"), None, Some("5.7"), Some("5.5")][g.c.free(4, "geoms.version")]);
     let r0 = LefShape::Rect(
         mask(g, None, "geoms.mask0"),
         g.point("0.11", "0.12", "geoms.x1", "geoms.y1"),
